@@ -27,6 +27,8 @@ CacheFailed(e) ==
 Failed(e) == IF e.e = "cache" THEN CacheFailed(e) ELSE
      UNION {CallFailed(e, e.calls[i]) : i \in 1..Len(e.calls)}
   \cup (IF e.panicked \/ e.hung THEN {"C06_NodeAlive"} ELSE {})
+  \* the request timeout (start 500 ms) adapts to observed round trips: without any reply slower than 500 ms it must not grow
+  \cup (IF e.slow_replies = 0 /\ e.tmax_ms > 500 THEN {"C06_TimeoutOnlyGrowsWithSlowReplies"} ELSE {})
   \cup (IF e.leak THEN {"C20_NoLeak"} ELSE {})
   \cup (IF e.inflight_live_at_quiescence > 0 THEN {"C20_NoLiveInflight"} ELSE {})
 Init == l = 1
